@@ -232,6 +232,10 @@ def acceptOf : String → Option (List GTy → Bool)
       | [a, b] => a == b
       | _ => false
   | "hash" => some fun ts => ts.length == 1
+  | "one" => some fun ts => ts.length == 1
+  | "two" => some fun ts => match ts with
+      | [a, b] => a == b
+      | _ => false
   | "any" => some fun _ => true
   | _ => none
 
